@@ -2,7 +2,7 @@
 (* Batch validation of logged cases (V direction): one TLC behaviour walks   *)
 (* the NDJSON file given in env CASES; every case is judged by the spec and  *)
 (* the verdict printed.  POSTCONDITION checks that every case was judged.    *)
-EXTENDS Naturals, Sequences, TLC, Json, IOUtils, JBinary, JFile
+EXTENDS Naturals, Sequences, TLC, Json, IOUtils, JBinary, JFile, JWriter
 
 CasesIn == ndJsonDeserialize(IOEnv.CASES)
 NCases == Len(CasesIn)
@@ -10,6 +10,8 @@ NCases == Len(CasesIn)
 Judge(c) ==
   CASE c.op = "sl_rt" -> Judge_sl_rt(c)
     [] c.op = "file_rt" -> Judge_file_rt(c)
+    [] c.op = "cuts" -> Judge_cuts(c)
+    [] c.op = "whist" -> Judge_whist(c)
     [] OTHER -> << "H.op=fail" >>
 
 VARIABLE i
